@@ -4,16 +4,16 @@ package main
 
 import (
 	"fmt"
-	"os"
 	"go/parser"
 	"go/token"
+	"os"
 	"regexp"
 	"strings"
 )
 
 type instCtx struct {
-	rep    int            // unrolling of every Star
-	choice int            // alternative selector (each-choice coverage: option = choice mod #options)
+	rep    int // unrolling of every Star
+	choice int // alternative selector (each-choice coverage: option = choice mod #options)
 	tokens map[string]string
 	n      int
 	iter   []int
